@@ -17,29 +17,45 @@ THEOREMS = [
     "TornadoModel.C28.quotePlus_encoded",
     "TornadoModel.C28.login_redirect_is_login_url",
     "TornadoModel.C28.sameSite_not_offsite",
+    "TornadoModel.C28.sameSite_iff_onSameHost",
+    "TornadoModel.C28.sameSite_tab_refuted",
+    "TornadoModel.C28.handleDeco_slash_on_same_host",
+    "TornadoModel.C28.static_handle_on_same_host",
+    "TornadoModel.C28.onSameHost_not_offsite",
+    "TornadoModel.C28.handleDeco_auth_login_url",
 ]
 TRUSTED = [
-    "routing through `(.*)`, `/(.*)`, `/*(.*)`, `<prefix>(.*)` is modelled as the captured group (C26.capture); argument decoding as in C26",
+    "routing through `(.*)`, `/(.*)`, `/*(.*)`, `<prefix>(.*)` is modelled as the captured group (C26.capture); argument decoding and the "
+    "request-line grammar (`C26.validTarget`) as in C26",
     "urllib.parse.urlencode/quote_plus and urlsplit(login_url).scheme (computed by the harness for the configured login URL) as modelled in C28/Model.lean",
     "the static directory redirect is the C26 model (posixpath, fixture tree as filesystem parameter)",
 ]
 ASSUMPTIONS = [
-    "request targets are latin-1 text without whitespace/control characters (what the request-line grammar admits), up to a few hundred characters",
+    "request targets are latin-1 text of up to a few hundred characters (the request-line grammar `[\\x21-\\x7e\\x80-\\xff]+` is modelled: "
+    "targets with whitespace/control characters answer 400 and are generated too)",
     "the wrapped method does not redirect itself; login_url is configuration, not request data",
     "`\\` directly after the leading `/` counts as off-site (browsers treat it like `/`), as does a target without a leading `/`",
+    "Spec.onSameHost (the oracle's yardstick) is a hand-written reading of the WHATWG URL parser's first steps for a Location resolved "
+    "against an http(s) page: strip leading C0/space, drop tab/LF/CR, `scheme:` prefix, two leading slash-or-backslash characters",
 ]
 RULE = ("request targets built from leading '/', '//', '/\\\\', '\\\\\\\\', '%2f', scheme and host-like segments, dot segments, trailing slashes and "
-        "queries, sent as GET/HEAD/POST through catch-all patterns to handlers decorated with removeslash/addslash/authenticated and to a "
+        "queries (and, in a separate stream, whitespace/control characters), sent as GET/HEAD/POST over HTTP/1.1 or 1.0 with an ordinary or hostile Host through catch-all patterns to handlers decorated with removeslash/addslash/authenticated and to a "
         "StaticFileHandler with default_filename; non-trivial = the response is a redirect or a refusal caused by the redirect guard; distinct by canonical JSON")
 EXHAUSTIVE = {"quick": False, "thorough": False}
 CLAUSE_CAVEATS = [
-    "Spec.sameSite is the predicate the code's guard computes (sameSitePath_eq is rfl): the theorems say a redirect is issued only after that guard; that the guard characterises 'a path on the same host' rests on its definition (no scheme, single leading slash not followed by slash or backslash)",
+    "Spec.onSameHost is defined without reference to the guard, but it is a transcription of the URL standard made for this check, not a "
+    "verified browser model; the guard equals it only on text without whitespace/control characters (sameSite_iff_onSameHost; "
+    "sameSite_tab_refuted shows `/<TAB>/host` passes the guard) — the run-level theorems get that side condition from the request-line grammar",
 ]
 CLAUSES = {
-    "removeslash/addslash Location is a path on the same host": "slash_redirect_same_site + handleDeco_slash_same_site (whole request through any catch-all pattern)",
-    "static-directory redirect Location is a path on the same host": "static_redirect_same_site + static_handle_redirect_same_site (every config, path, filesystem)",
-    "never scheme-qualified or protocol-relative": "sameSite_not_offsite (what Spec.sameSite excludes)",
-    "authenticated redirects only to the configured login URL": "login_redirect_is_login_url + quotePlus_encoded (request text below U+0800: only unreserved/%/+ characters after ?next=)",
+    "removeslash/addslash Location is a path on the same host": "handleDeco_slash_on_same_host (whole request through any catch-all pattern: Spec.onSameHost of the Location, "
+        "no side condition) via slash_redirect_same_site + handleDeco_slash_same_site (redirect only after the guard) + sameSite_iff_onSameHost",
+    "static-directory redirect Location is a path on the same host": "static_handle_on_same_host (every config, target, filesystem) via static_redirect_same_site + "
+        "static_handle_redirect_same_site + sameSite_iff_onSameHost",
+    "never scheme-qualified or protocol-relative": "onSameHost_not_offsite (no `scheme:` prefix, not two leading slash-or-backslash characters, after the "
+        "browser's whitespace stripping) + sameSite_not_offsite",
+    "authenticated redirects only to the configured login URL": "handleDeco_auth_login_url (whole request; the target's characters are bounded by the request-line grammar, host/protocol below U+0800) "
+        "via login_redirect_is_login_url + quotePlus_encoded (only unreserved/%/+ characters after ?next=)",
 }
 PARALLEL = True
 CASE_TIMEOUT = 120
@@ -95,6 +111,9 @@ QUERY = ["", "", "", "?", "?q=1", "?next=//evil.example", "?//evil.example/", "?
 LOGIN = ["/login", "/login", "/login?x=1", "https://auth.example/login", "//auth.example/l", "/l?next=", "login", "/log in".replace(" ", "%20"), "HTTPS://A/", "http:x"]
 
 
+CTRL = ["\t", " ", "\x00", "\x0b", "\x0c", "\x1f", "\x7f", "\r", "\n", "\x1c", "\x85", "\xa0"]
+
+
 def _target(rng):
     k = rng.random()
     if k < 0.1:
@@ -111,6 +130,9 @@ def _target(rng):
     t += rng.choice(TRAIL)
     t += rng.choice(QUERY)
     t = "".join(ch for ch in t if ch not in " \t\r\n")
+    if rng.random() < 0.06:      # whitespace / control characters: the request line is malformed (400), whatever the handler
+        i = rng.choice([0, 1, 1, 2, rng.randrange(len(t) + 1)])
+        t = t[:i] + rng.choice(CTRL) + t[i:]
     return t or "/"
 
 
@@ -127,6 +149,10 @@ def gen_cases(rng, tier):
         if kind == "static":
             c["method"] = "GET" if c["method"] == "POST" else c["method"]
             c["default"] = rng.choice(["index.html", "index.html", "index.html", None])
+        if kind != "auth" and rng.random() < 0.2:      # a hostile Host must not matter: the Location is a path
+            c["host"] = rng.choice(["evil.example", "evil.example:8080", "h.example:8080", "[::1]"])
+        if rng.random() < 0.1:
+            c["version"] = "1.0"
         yield c
 
 
@@ -208,7 +234,7 @@ def run_impl(case):
         app = web.Application([(case["pat"], _handlers()[kind])], login_url=case["login"])
     else:
         app = web.Application([(case["pat"], _handlers()[kind])])
-    raw = ("%s %s HTTP/1.1\r\n" % (case["method"], case["target"])).encode("latin1")
+    raw = ("%s %s HTTP/%s\r\n" % (case["method"], case["target"], case.get("version", "1.1"))).encode("latin1")
     raw += b"Host: " + case.get("host", "h.example").encode() + b"\r\n"
     if case.get("user"):
         raw += b"X-User: bob\r\n"
@@ -268,7 +294,7 @@ def spec_requests(case, impl):
         return []
     if case["kind"] == "auth":
         return [line(ID, "loginOk", case["login"], impl["location"])]
-    return [line(ID, "sameSite", impl["location"])]
+    return [line(ID, "onSameHost", impl["location"])]
 
 
 def spec_violation(case, impl, replies):
@@ -306,7 +332,7 @@ def _tclass(t):
 
 
 def stats(case, impl):
-    return ["kind:" + case["kind"], "pat:" + case["pat"], "method:" + case["method"], "status:%d" % impl["status"],
+    return ["kind:" + case["kind"], "pat:" + case["pat"], "version:" + case.get("version", "1.1"), "host:" + ("default" if "host" not in case else "given"), "method:" + case["method"], "status:%d" % impl["status"],
             "target:" + _tclass(case["target"]), "%s:%d" % (case["kind"], impl["status"])]
 
 
